@@ -132,10 +132,58 @@ func (c *Ctx) queuesAfterWrites(d *dstate, fn *ssa.Function, memo map[*ssa.Funct
 		if _, ok := p.Exit.(*ssa.Return); !ok {
 			continue
 		}
+		failed := false
 		if isNil, known := p.ReturnsNilError(); known && !isNil {
-			continue
+			failed = true
 		}
 		if errorNonNilOnPath(p) {
+			failed = true
+		}
+		if failed {
+			// a failure after the local write may only be the failure to build the broadcast itself (marshalling):
+			// any other error that makes the mutator leave between the write and the broadcast loses the change for the peers
+			wroteAt, queued := -1, false
+			for i, pi := range p.Instrs() {
+				if _, isDefer := pi.In.(*ssa.Defer); isDefer && !pi.Deferred {
+					continue
+				}
+				if cl := core.CallOf(pi.In); cl != nil {
+					if cl.Is(d.queueBroadcast) || (cl.Static != nil && cl.Static != fn && d.mutatorOf(cl.Static) != nil) {
+						queued = true
+						continue
+					}
+				}
+				if c.isStoreWrite(d, pi.In) {
+					wroteAt, queued = i, false
+				}
+			}
+			if wroteAt >= 0 && !queued {
+				for _, dd := range decisions(p) {
+					if dd.Seq < wroteAt {
+						continue
+					}
+					bo, ok := dd.Cond.(*ssa.BinOp)
+					if !ok || (bo.Op != token.EQL && bo.Op != token.NEQ) || !types.Identical(bo.X.Type(), errorType) {
+						continue
+					}
+					if nonNil := dd.Val == (bo.Op == token.NEQ); !nonNil {
+						continue
+					}
+					var ev ssa.Value
+					for _, pair := range [][2]ssa.Value{{bo.X, bo.Y}, {bo.Y, bo.X}} {
+						if k, isK := pair[1].(*ssa.Const); isK && k.Value == nil {
+							ev = p.Resolve(pair[0])
+						}
+					}
+					fromMarshal := ev != nil && depReaches(ev, func(v ssa.Value) bool {
+						cv, ok := v.(*ssa.Call)
+						return ok && core.CallOf(cv).Is(d.marshal...)
+					})
+					if !fromMarshal {
+						bad = "after the local store was changed the mutator can leave on an error that has nothing to do with building the broadcast (tested at " + c.whereI(dd.If) + "): the change stays local and is never gossiped — " + fmtPath(p, c.P)
+					}
+				}
+			}
 			continue
 		}
 		wrote, queuedAfter := false, false
